@@ -64,6 +64,19 @@ pub fn io_through_plain_streams(scs: &Scs, precision: usize) -> Option<String> {
         if let Err(e) = write::Builder::default().set_precision(precision).set_format(format).write(&mut reference, scs) {
             return Some(format!("writing {fname} into a Vec failed: {e}"));
         }
+        // the builder's setters in the other order, and called again: the same bytes
+        for (what, b) in [
+            ("set_format before set_precision", write::Builder::default().set_format(format).set_precision(precision)),
+            ("set_precision called twice around set_format", write::Builder::default().set_precision(precision + 3).set_format(format).set_precision(precision)),
+            ("set_format called twice around set_precision", write::Builder::default().set_format(if fname == "npy" { Format::Text } else { Format::Npy }).set_precision(precision).set_format(format)),
+        ] {
+            let mut out = Vec::new();
+            match b.write(&mut out, scs) {
+                Ok(()) if out == reference => {}
+                Ok(()) => return Some(format!("{fname} with {what}: {} bytes, starting {:?}; with set_precision before set_format {} bytes", out.len(), String::from_utf8_lossy(&out[..out.len().min(24)]), reference.len())),
+                Err(e) => return Some(format!("{fname} with {what} failed: {e}")),
+            }
+        }
         for max in [1usize, 7, 64] {
             let mut w = SeamWriter::short(max);
             match write::Builder::default().set_precision(precision).set_format(format).write(&mut w, scs) {
